@@ -2,12 +2,17 @@
 
 Decided by: (1) TLC, design level: FaultsMC.tla - reserve-then-append and acquire/roll-back transactions with every
 allocation request an explicit step, every program of MaxOps transactions and every single/double failure position,
-invariants NoCorruption / Consistent / Atomic / NoLeak / RetryEqualsClean; three negative controls must be violated.
-(2) Trace validation against the CONTRACT Faults.tla: harness/faults.cpp runs each workload once clean and then once
-per injected failure position (k-th arena request through hook H1, k-th heap request and k-th VM request through
-link-time wrapping) - continuing after every error, then reset, retry on the same objects, destroy, leak accounting -
-and FaultsTrace.tla accepts an execution iff the property held on it.  A crash/hang of the traced process is an ABORT
-line no action consumes.  Flavour: asan for all three classes (the wrappers forward to ASan's allocator)."""
+with both continuations after a reported error (go on / repeat the failed transaction in place), invariants
+NoCorruption / Consistent / Atomic / NoLeak / RetryEqualsClean / InPlaceCompletes; four negative controls must be violated.
+(2) Trace validation against the CONTRACT Faults.tla: harness/faults.cpp runs each workload once clean and then, per
+injected failure position (k-th arena request through hook H1, k-th heap request and k-th VM request through link-time
+wrapping), once with the continuation "restart" (go on after every error) and once with "retry in place" (memory is
+made available and exactly the failed call is repeated on the same objects, then the workload goes on); every run ends
+with reset, a full retry on the same objects, destruction and leak accounting.  FaultsTrace.tla accepts an execution
+iff the property held on it.  A crash/hang of the traced process is an ABORT line no action consumes.
+Workloads W1..W5 (assemble x64/a64, build+serialize, compile+execute, JIT add, containers+pool), W6..W8 (arena grown
+to several blocks -> soft reset / reinit / detach+attach -> request bigger than every retained block: directly, in the
+builder arena, in the compiler's arenas).  Flavour: asan for all classes (the wrappers forward to ASan's allocator)."""
 import collections, concurrent.futures, json, os, re
 import vlib
 from vlib import Broken
@@ -22,7 +27,8 @@ CONSTANTS
   MaxFail = 2
   Discipline = "{disc}"
   RollBack = {rb}
-INVARIANTS NoCorruption Consistent NoLeak NoLeakAtEnd RetryEqualsClean
+  InPlace = {ip}
+INVARIANTS NoCorruption Consistent NoLeak NoLeakAtEnd RetryEqualsClean InPlaceCompletes
 PROPERTY Atomic
 """
 
@@ -37,22 +43,26 @@ HARNESS_ENV = {"ASAN_OPTIONS": "detect_leaks=0:abort_on_error=0:exitcode=66:allo
 
 def design(ctx):
     ops = 4 if ctx.quick else 5
-    cfg = ctx.path("mc.cfg")
-    open(cfg, "w").write(MC_TMPL.format(ops=ops, disc="ReserveFirst", rb="TRUE"))
-    r = vlib.run_tlc(ctx, MOD_MC, cfg, workers=4, timeout=1500, heap="4g", tag="design")
-    vlib.tlc_must_ok(ctx, r, "design (reserve-then-append / roll-back under every single and double failure)")
-    ctx.log(f"design: {r.distinct} distinct states, all invariants + Atomic hold (MaxOps={ops}, <=2 failures)")
-    ctx.extra["design_states"] = r.distinct
+    total = 0
+    for ip in ("FALSE", "TRUE"):     # continuation after an error: go on with the next transaction / repeat it in place
+        cfg = ctx.path(f"mc_{ip}.cfg")
+        open(cfg, "w").write(MC_TMPL.format(ops=ops, disc="ReserveFirst", rb="TRUE", ip=ip))
+        r = vlib.run_tlc(ctx, MOD_MC, cfg, workers=4, timeout=1500, heap="4g", tag=f"design_{ip}")
+        vlib.tlc_must_ok(ctx, r, f"design InPlace={ip} (reserve-then-append / roll-back under every single and double failure)")
+        total += r.distinct
+    ctx.log(f"design: {total} distinct states, all invariants + Atomic hold (MaxOps={ops}, <=2 failures, continuations restart and retry-in-place)")
+    ctx.extra["design_states"] = total
     # negative controls: the model must be able to see the breakage it is about
-    for name, disc, rb, inv in (("append-before-reserve", "AppendFirst", "TRUE", "Consistent"),
-                                ("no roll-back", "ReserveFirst", "FALSE", "NoLeak"),
-                                ("append without reserve", "NoReserve", "TRUE", "NoCorruption")):
-        cfg = ctx.path(f"mc_neg_{disc}_{rb}.cfg")
-        open(cfg, "w").write(MC_TMPL.format(ops=3, disc=disc, rb=rb))
-        r = vlib.run_tlc(ctx, MOD_MC, cfg, workers=2, timeout=600, heap="2g", tag=f"neg_{disc}_{rb}")
-        if r.kind != "violation" or r.violated != inv:
+    for name, disc, rb, ip, inv in (("append-before-reserve", "AppendFirst", "TRUE", "FALSE", ("Consistent",)),
+                                    ("no roll-back", "ReserveFirst", "FALSE", "FALSE", ("NoLeak",)),
+                                    ("append without reserve", "NoReserve", "TRUE", "FALSE", ("NoCorruption",)),
+                                    ("append-before-reserve, retried in place", "AppendFirst", "TRUE", "TRUE", ("Consistent", "InPlaceCompletes"))):
+        cfg = ctx.path(f"mc_neg_{disc}_{rb}_{ip}.cfg")
+        open(cfg, "w").write(MC_TMPL.format(ops=3, disc=disc, rb=rb, ip=ip))
+        r = vlib.run_tlc(ctx, MOD_MC, cfg, workers=2, timeout=600, heap="2g", tag=f"neg_{disc}_{rb}_{ip}")
+        if r.kind != "violation" or r.violated not in inv:
             raise Broken(f"negative control '{name}' was not rejected as expected (kind={r.kind} violated={r.violated})")
-    ctx.log("design: 3 negative controls rejected (append-before-reserve, no roll-back, append without reserve)")
+    ctx.log("design: 4 negative controls rejected (append-before-reserve, no roll-back, append without reserve, append-before-reserve retried in place)")
 
 
 def split_execs(recs):
@@ -153,7 +163,7 @@ def classify(clean, ex, lineno, sites=None):
         site = (sites or {}).get(head.get("job"), "")
         what = f"process died ({bad.get('why', 'truncated trace')}) during {crashed}" + (f": {site}" if site else "")
     elif e == "Call" and bad.get("ph") == "F" and inplace and (bad.get("redo") or any(r.get("redo") for r in calls)):
-        rep = bad if bad.get("redo") else next(r for r in calls if r.get("redo"))
+        rep = bad if bad.get("redo") else next(r for r in reversed(calls) if r.get("redo"))
         injected_in = rep["c"]
         if cls == "arena":
             tagp = "physical" if rep.get("phys") else "synthetic"
